@@ -1,8 +1,8 @@
 #!/verif/.venv/bin/python
 # Replay of a solver counterexample against the unmodified code (no shims).
-# property=C09 kernel=atomic label=atomic:delay_rest#1
+# property=C09 kernel=atomic label=atomic:align#1
 import sys
 sys.path[:0] = ['/repo' + "/pulser-core", '/repo' + "/pulser-simulation", "/verif"]
 from symx.replay import replay
-sys.exit(replay(check='checks.c09', kernel='atomic', shape={'device': 'virt_maxseq', 'prefix': 'p0', 'ops': ['add_l', 'delay_rest']},
-                assignment={'d0': 9, 'a0': '1/2', 'dl1': 7, 'buf#1.start': 0, 'buf#1.end': 0, 'buf#2.start': 0, 'buf#2.end': 1}, label='atomic:delay_rest#1'))
+sys.exit(replay(check='checks.c09', kernel='atomic', shape={'device': 'virt_maxseq', 'prefix': 'p2', 'ops': ['delay_rest', 'align']},
+                assignment={'pd1/k': 2, 'pd2/k': 988, 'buf#1.start': 0, 'buf#1.end': 2, 'buf#2.start': 0, 'buf#2.end': 3, 'dl0': 3957, 'buf#7.start': 0, 'buf#7.end': 0, 'buf#8.start': 0, 'buf#8.end': 1}, label='atomic:align#1'))
